@@ -276,7 +276,12 @@ def method_call(it, n, b, attr, args, kwargs, st):
                 items = list(b.items) + [args[0]]
             elif b.items is not None and attr == "extend" and args[0].items is not None:
                 items = list(b.items) + list(args[0].items)
-            nv = Val("list", items=items, dep=b.dep | d | st.ctrl, cfg=b.cfg and c and not st.ctrl, obj=b.obj)
+            from .absval import join_dom
+
+            nd = dict(b.dom)
+            for a_ in args:
+                nd = join_dom(nd, a_.dom)
+            nv = Val("list", items=items, dep=b.dep | d | st.ctrl, cfg=b.cfg and c and not st.ctrl, obj=b.obj, dom=nd)
             it._rebind(base, nv, st)
         elif b.kind == "dict" and attr in ("update",) and args and args[0].kind == "dict" and b.items is not None and args[0].items is not None:
             items = dict(b.items)
@@ -450,7 +455,7 @@ def ext_call(it, n, name, args, kwargs, st):
         hd = hd | heap_dep(a, st)
     for a in kwargs.values():
         hd = hd | heap_dep(a, st)
-    short = name.split(".")[-1]
+    short = name.replace(":", ".").split(".")[-1]
     root = name.split(".")[0].split(":")[0]
     cx = None
     if c and all(a.cx for a in args) and not kwargs and sum(len(a.cx) for a in args) < 140:
